@@ -2,8 +2,24 @@ from driver import Unit
 LEVEL = "other"
 HARNESS_FILES = ["verif_geom.rs"]
 P = "nested::verif_geom::"
+both = ("quick", "thorough"); th = ("thorough",)
+MANIFEST = dict(
+    category="other",
+    text="bilinear_interpolation on the real code with hash_with_dxdy replaced by its contract (any cell, any offsets in [0,1]) and the real neighbours(): the four weights are non-negative, every returned cell is the cell of the position or one of its neighbours, that cell is always present, the corner neighbour of the position's quadrant takes part, a missing corner (three-cell point) contributes (cell, 0), and at the cell centre the cell weighs exactly 1. Proved for depth 0 (all 12 cells, incl. the 6-neighbour case); depths 1, 2 and 29 are time-bounded refutation searches (the real neighbours() makes the query large). 'Weights sum to 1' and the grid-mean claim need four double products: NOT decided.",
+    note="Bounded: proof at depth 0 only; deeper depths searched. Partition-of-unity (sum == 1) not decided.",
+    technique="Kani contract-stubbed harness (CBMC) on the real bilinear_interpolation and neighbours; time-bounded refutation search beyond depth 0",
+)
+EXPLANATION = "Depth 0 unit complete over cells and offsets; other depths inconclusive searches unless they finish."
+ASSUMPTIONS = ["hash_with_dxdy contract (cell < 12*4^d, offsets in [0,1]) assumed (C03)", "sum of weights == 1 within rounding and the weighted-mean claim: NOT decided"]
+TRUSTED_BASE = ["Kani 0.68 / CBMC 6.11 IEEE-754"]
 def units():
-    us = []
-    for n in ["bilinear_d00", "bilinear_d01", "bilinear_d02", "bilinear_center_d01", "bilinear_d29"]:
-        us.append(Unit(n, P + n, ["x"], "x", timeout=400, mem_gb=8, extra=dict(no_native=True)))
-    return us
+    F = ["Layer::bilinear_interpolation", "Layer::neighbours", "MainWindMap::get", "(contract stub) Layer::hash_with_dxdy"]
+    nn = dict(no_native=True)
+    return [
+        Unit("bilinear_d00", P + "bilinear_d00", F, "depth 0, all cells, all offsets in [0,1]^2: weights >= 0, cells among {cell} U neighbours, cell present, quadrant corner used, missing corner weighs 0", timeout=900, level="B", bound="depth 0", extra=nn),
+        Unit("bilinear_center_d00", P + "bilinear_center_d00", F, "depth 0, offsets (0.5, 0.5): weight of the cell == 1, neighbours weigh 0", timeout=900, level="B", bound="depth 0", extra=nn),
+        Unit("bilinear_search_d01", P + "bilinear_d01", F, "depth 1: same obligations, time-bounded refutation search", kind="search", timeout=240, extra=nn),
+        Unit("bilinear_search_d02", P + "bilinear_d02", F, "depth 2: same, search", kind="search", timeout=240, extra=nn),
+        Unit("bilinear_search_d29", P + "bilinear_d29", F, "depth 29: same, search", kind="search", timeout=240, extra=nn),
+        Unit("bilinear_center_search_d01", P + "bilinear_center_d01", F, "depth 1, cell centre: search", kind="search", timeout=240, extra=nn),
+    ]
